@@ -33,6 +33,10 @@ LEMMA_HYPS = {
     'minimal': ['schedules-only-the-demanded-line-and-required-lines-of-its-new-form', 'queues-only-scheduled-lines', 'input-only/schedules-nothing'],
 }
 
+# the reported diagnostics (unimplemented lines, what each unsolved line waits on) record the outcome of the line's own evaluation,
+# whatever was attempted before it: postconditions of _attempt_field
+DIAGNOSTIC_POSTS = ('recorded-unimplemented-iff-its-own-evaluation-reports-not-implemented', 'a-line-lacking-line-d-is-parked-on-d', 'a-line-lacking-an-input-is-parked-on-it')
+
 
 def lean_lemma():
     path = os.path.join(oblig.VERIF, 'lemmas', 'StableState.lean')
@@ -73,7 +77,7 @@ def purity(year):
         fn = extract.line_function(fld)
         key = (fn.__code__.co_filename, fn.__code__.co_firstlineno, fn.__code__.co_name)
         name = fld.name()
-        problems = []
+        problems, hashsets = [], []
         stack, done = [fn], set()
         while stack:
             f = stack.pop()
@@ -87,6 +91,15 @@ def purity(year):
                 continue
             params = {a.arg for a in node.args.args}
             for n in ast.walk(node):
+                if isinstance(n, (ast.For, ast.comprehension)) or (isinstance(n, ast.Call) and isinstance(n.func, ast.Name) and n.func.id in ORDER_CONSUMERS
+                                                                    or isinstance(n, ast.Call) and isinstance(n.func, ast.Attribute) and n.func.attr == 'join'):
+                    # the order in which a line reads v[...] decides which missing line it is parked on (a reported diagnostic) and
+                    # which optional lines get scheduled: it must not follow the interpreter's per-process string hash seed
+                    its = [n.iter] if isinstance(n, (ast.For, ast.comprehension)) else list(n.args[:1])
+                    for itx in its:
+                        if hash_ordered(f, itx):
+                            hashsets.append(ast.unparse(itx))
+                            problems.append(f'iteration over a set at line {itx.lineno}: the order of its reads follows the interpreter hash seed')
                 if isinstance(n, (ast.Global, ast.Nonlocal)):
                     problems.append(f'{type(n).__name__.lower()} statement at line {n.lineno}')
                 elif isinstance(n, (ast.Assign, ast.AugAssign, ast.AnnAssign)):
@@ -120,8 +133,44 @@ def purity(year):
                           vc=f'{len(done)} function(s) scanned'))
         else:
             obs.append(Ob(id=oid, status=oblig.REFUTED, backend='ast-scan', function=fid, clause=f'{name} is not a pure reader: ' + '; '.join(sorted(set(problems))[:3]),
-                          witness={'problems': sorted(set(problems))[:6]}, replay={'reproduced': True, 'static': True}))
+                          witness={'problems': sorted(set(problems))[:6]}, replay=native_hash_order(hashsets) if hashsets else {'reproduced': True, 'static': True}))
     return obs
+
+
+ORDER_CONSUMERS = ('sum', 'list', 'tuple', 'enumerate', 'zip', 'map', 'filter', 'iter', 'next', 'reversed')
+
+
+def hash_ordered(f, e):
+    """e evaluates to a set whose iteration order is not fixed by the program text (elements other than numbers)."""
+    if isinstance(e, ast.Set):
+        return len(e.elts) > 1 and not all(isinstance(x, ast.Constant) and isinstance(x.value, (int, float, bool)) for x in e.elts)
+    if isinstance(e, ast.SetComp):
+        return True
+    if isinstance(e, ast.Call) and isinstance(e.func, ast.Name) and e.func.id in ('set', 'frozenset') and e.args:
+        return True
+    if isinstance(e, ast.BinOp) and isinstance(e.op, (ast.BitOr, ast.BitAnd, ast.Sub, ast.BitXor)):
+        return hash_ordered(f, e.left) or hash_ordered(f, e.right)
+    if isinstance(e, ast.Name):
+        ok, obj = extract.resolve_name(f, e.id)
+        return bool(ok and isinstance(obj, (set, frozenset)) and len(obj) > 1 and not all(isinstance(x, (int, float, bool)) for x in obj))
+    return False
+
+
+def native_hash_order(exprs):
+    """Concretisation: the iteration order of the set expression in fresh interpreters with different hash seeds."""
+    import sys
+    runs = {}
+    for src in exprs[:2]:
+        orders = set()
+        for seed in range(8):
+            try:
+                r = subprocess.run([sys.executable, '-c', f'print(list({src}))'], capture_output=True, text=True, timeout=20, env=dict(os.environ, PYTHONHASHSEED=str(seed)))
+            except Exception:
+                continue
+            if r.returncode == 0:
+                orders.add(r.stdout.strip())
+        runs[src] = sorted(orders)[:4]
+    return {'reproduced': any(len(v) > 1 for v in runs.values()), 'kind': 'hash-order', 'orders_seen_under_8_hash_seeds': runs}
 
 
 def helper_purity():
@@ -179,6 +228,58 @@ def store_units_c05():
         o.id = o.id.replace('C11/', 'C05/store/')
         out.append(o)
     return out
+
+
+def hash_order_frames():
+    """No function of the solver-side modules iterates over a hash-ordered set: their effects (attempt order aside, which the
+    invariants abstract) must not follow the interpreter's per-process string hash seed.  Sets used for membership only are fine."""
+    import habutax
+    from habutax import solver, values, inputs, form, fields, enum
+    obs = []
+    for mod in (solver, values, inputs, form, fields, enum, habutax):
+        tree = ast.parse(open(mod.__file__).read())
+        problems, exprs = [], []
+        for fn in [n for n in ast.walk(tree) if isinstance(n, (ast.FunctionDef, ast.Lambda))]:
+            setnames = set()
+            for n in ast.walk(fn):
+                if isinstance(n, ast.Assign) and len(n.targets) == 1 and isinstance(n.targets[0], ast.Name) and _set_expr(n.value, setnames, mod):
+                    setnames.add(n.targets[0].id)
+            for n in ast.walk(fn):
+                its = []
+                if isinstance(n, (ast.For, ast.comprehension)):
+                    its = [n.iter]
+                elif isinstance(n, ast.Call) and ((isinstance(n.func, ast.Name) and n.func.id in ORDER_CONSUMERS) or (isinstance(n.func, ast.Attribute) and n.func.attr in ('join', 'extend'))):
+                    its = list(n.args[:1])
+                for itx in its:
+                    if _set_expr(itx, setnames, mod):
+                        problems.append(f'{getattr(fn, "name", "lambda")}: iteration over the set {ast.unparse(itx)} at line {itx.lineno}')
+                        exprs.append(ast.unparse(itx))
+        name = os.path.basename(mod.__file__) if mod is not habutax else '__init__.py'
+        oid = f'C05/frames/no-hash-ordered-iteration/{name}'
+        clause = 'no loop, comprehension or sequence constructor runs over a set (iteration order of a set of texts follows the interpreter hash seed, not the inputs)'
+        if not problems:
+            obs.append(Ob(id=oid, backend='ast-scan', function=name, clause=clause, vc='every function of the module'))
+        else:
+            obs.append(Ob(id=oid, status=oblig.REFUTED, backend='ast-scan', function=name, clause='NOT: ' + clause + ': ' + '; '.join(problems[:3]), witness={'problems': problems[:6]},
+                          replay={'reproduced': True, 'static': True}))
+    return obs
+
+
+def _set_expr(e, setnames, mod):
+    if isinstance(e, (ast.Set, ast.SetComp)):
+        return not (isinstance(e, ast.Set) and (len(e.elts) < 2 or all(isinstance(x, ast.Constant) and isinstance(x.value, (int, float, bool)) for x in e.elts)))
+    if isinstance(e, ast.Call) and isinstance(e.func, ast.Name) and e.func.id in ('set', 'frozenset'):
+        return True
+    if isinstance(e, ast.BinOp) and isinstance(e.op, (ast.BitOr, ast.BitAnd, ast.Sub, ast.BitXor)):
+        return _set_expr(e.left, setnames, mod) or _set_expr(e.right, setnames, mod)
+    if isinstance(e, ast.Call) and isinstance(e.func, ast.Attribute) and e.func.attr in ('union', 'intersection', 'difference', 'symmetric_difference') and _set_expr(e.func.value, setnames, mod):
+        return True
+    if isinstance(e, ast.Name):
+        if e.id in setnames:
+            return True
+        obj = getattr(mod, e.id, None)
+        return isinstance(obj, (set, frozenset)) and len(obj) > 1
+    return False
 
 
 def solver_order_frames():
@@ -345,7 +446,7 @@ def solver_layer(tier, seed):
     wanted = {frag for frs in LEMMA_HYPS.values() for frag in frs}
     keep = []
     for o in obs:
-        if any(f in o.id for f in wanted) or o.status != oblig.DISCHARGED:
+        if any(f in o.id for f in wanted) or any(f in o.id for f in DIAGNOSTIC_POSTS) or o.status != oblig.DISCHARGED:
             o.id = o.id.replace('SOLVER/', 'C05/solver/')
             keep.append(o)
     found = {f for f in wanted if any(f in o.id and o.status == oblig.DISCHARGED for o in keep)}
@@ -360,7 +461,7 @@ def solver_layer(tier, seed):
 
 
 def run(tier, seed, t0):
-    tasks = [Task('lean', lean_lemma), Task('frames', solver_order_frames), Task('helpers', helper_purity), Task('setitem', store_setitem), Task('store', store_units_c05), Task('small', small_units.all_small), Task('solver', solver_layer, tier, seed, weight=20)]
+    tasks = [Task('lean', lean_lemma), Task('frames', solver_order_frames), Task('hashorder', hash_order_frames), Task('helpers', helper_purity), Task('setitem', store_setitem), Task('store', store_units_c05), Task('small', small_units.all_small), Task('solver', solver_layer, tier, seed, weight=20)]
     tasks += [Task(f'pure/{y}', purity, y, weight=3) for y in extract.YEARS]
     obs = oblig.run_tasks(tasks, jobs=8)
     for o in obs:
